@@ -24,7 +24,10 @@ CHECK = Check(
         "n-d array model OW/Nd (C01/C02; `unroll_spec` of OW/Props/C02.lean is used by write_load_roundtrip and "
         "writeSlice_footprint)",
         "lock discipline: harness/cmd/owlockgraph (go/parser + go/ast, conservative: unknown receiver ⇒ every method of "
-        "that name, unknown call ⇒ mutating) is trusted to list every function, library call and call edge of package io; "
+        "that name, unknown call ⇒ mutating) is trusted to list every function, library call and call edge of package io — "
+        "a function literal handed directly to a package function whose parameter is call-only (`lock…(); defer unlock…(); "
+        "body()` helpers, any name) is a node called BY that function (it inherits the helper's lock, nothing from where it is "
+        "written); any other literal (stored, handed on, started with go) and every `go f()` is an entry point without a lock; "
         "sync.RWMutex is trusted (a function that starts with lockHDF5/rLockHDF5 and defers the release holds the lock "
         "exclusively/shared during its whole body); dynamic cross-check: the library model's Hook asserts through "
         "io.VerifLockState (TryLock/TryRLock) that the lock is held at every library call of every H5 case, with "
